@@ -11,8 +11,10 @@ on the implementation by the check); what *is* true is stated as far as it is pr
 * **for `min_npix` (with `min_delta = 0` throughout) the property holds of the code as it is, for
   every input — `C08_npix`**: pruning afterwards with a stricter `min_npix` yields the same
   hierarchy as computing with it directly.
-The full statement with `min_delta` under the original-merge-level rule (`ruleOrig`) is checked by
-the correspondence run only (it serves as arbiter for classifying K1), not proved.
+* **`C08_full`**: with the post-hoc rule that uses every structure's *original merge level*
+  (`ruleOrig`, the one-line idea of a repair) pruning afterwards equals computing with the
+  stricter parameters for `min_delta` and `min_npix` together, for every input.  The check uses
+  exactly this rule as arbiter when it classifies a disagreement of the real code as K1.
 -/
 open Tree
 
@@ -60,6 +62,20 @@ theorem C08_npix (val : Nat → Int) (nbrs : Nat → List Nat) (order : List Nat
         (makeTrunk (envOf val nbrs [Crit.minDelta 0, Crit.minNpix n0]) (run (envOf val nbrs [Crit.minDelta 0, Crit.minNpix n0]) order)))
       (makeTrunk (envOf val nbrs [Crit.minDelta 0, Crit.minNpix n1]) (run (envOf val nbrs [Crit.minDelta 0, Crit.minNpix n1]) order)) :=
   P18.prune_eq_compute_npix val nbrs order n0 n1 hnd hsorted h01
+
+/-- **C08 (full statement, for the corrected post-hoc rule).** For all values (ties allowed), any
+adjacency, any non-increasing duplicate-free order, all `d0 ≤ d1`, `n0 ≤ n1`: computing with
+`(d0, n0)` and pruning with `(d1, n1)` under the original-merge-level rule yields the same
+hierarchy as computing with `(d1, n1)`. -/
+theorem C08_full (val : Nat → Int) (nbrs : Nat → List Nat) (order : List Nat) (d0 d1 : Int) (n0 n1 : Nat)
+    (hnd : order.Nodup) (hsorted : order.Pairwise (fun a b => val b ≤ val a)) (hd : d0 ≤ d1) (hn : n0 ≤ n1) :
+    P10.SimL (fun p => p)
+      (prune (allChildOrig val (origLevelsL val (makeTrunk (envOf val nbrs [Crit.minDelta d0, Crit.minNpix n0])
+                (run (envOf val nbrs [Crit.minDelta d0, Crit.minNpix n0]) order))) [Crit.minDelta d1, Crit.minNpix n1])
+             (allOrphan val [Crit.minDelta d1, Crit.minNpix n1])
+             (makeTrunk (envOf val nbrs [Crit.minDelta d0, Crit.minNpix n0]) (run (envOf val nbrs [Crit.minDelta d0, Crit.minNpix n0]) order)))
+      (makeTrunk (envOf val nbrs [Crit.minDelta d1, Crit.minNpix n1]) (run (envOf val nbrs [Crit.minDelta d1, Crit.minNpix n1]) order)) :=
+  P28.pruneOrig_eq_compute val nbrs order d0 d1 n0 n1 hnd hsorted hd hn
 
 /-- **C08 (`min_npix` is the same test in both phases).** -/
 theorem C08_npix_same_test (val : Nat → Int) (n : Nat) (parent t : Tree) (v : Int) :
